@@ -725,7 +725,10 @@ class Fn:
                     # field-sensitivity: a write to a *different* field of the same local is irrelevant
                     if node["pl"]["p"] and proj and not _proj_compatible(node["pl"]["p"], proj):
                         continue
-                    if k in ("use", "cast", "repeat"):
+                    if k == "use" and proj and node["pl"]["p"] == [] and rv["op"].get("k") in ("copy", "move"):
+                        # x = y; a read of x.f is a read of y.f (keep the projection across whole-value copies)
+                        push_pl({"l": rv["op"]["pl"]["l"], "p": list(rv["op"]["pl"]["p"]) + list(proj)})
+                    elif k in ("use", "cast", "repeat"):
                         push_op(rv["op"])
                     elif k == "unop":
                         atoms.add(("unop", rv["op"]))
